@@ -212,10 +212,13 @@ def run_history(ops, full=False):
                     w.readers[rid] = READERS[op["fmt"]](**op.get("ropts", {}))
                 rdr = w.readers[rid]
                 o["reader_fresh"] = fresh
+                if op.get("detect"):
+                    o["detect"] = repr(guarded(lambda: rdr.detect(op["doc"]))[0])
                 res, exc = guarded(lambda: rdr.read(op["doc"], **op.get("opts", {})))
             o["err"] = err_code(exc) if exc is not None else None
             if exc is not None:
                 o["exc"] = repr(exc)[:200]
+                o["exc_class"] = "%s.%s" % (type(exc).__module__, type(exc).__qualname__)
             w.sets.append(res)
             if res is not None:
                 t = S.tree(res)
@@ -267,6 +270,7 @@ def run_history(ops, full=False):
             o["err"] = err_code(exc) if exc is not None else None
             if exc is not None:
                 o["exc"] = repr(exc)[:200]
+                o["exc_class"] = "%s.%s" % (type(exc).__module__, type(exc).__qualname__)
             if res is not None:
                 import hashlib
                 if not isinstance(res, str):
@@ -305,10 +309,13 @@ def run_history(ops, full=False):
             o["err"] = err_code(exc) if exc is not None else None
             if exc is not None:
                 o["exc"] = repr(exc)[:200]
+                o["exc_class"] = "%s.%s" % (type(exc).__module__, type(exc).__qualname__)
         else:
             raise ValueError(kind)
         after = w.digests()
         o["sets"] = [None if t is None else S.digest(t) for t in after]
+        sigs = [None if cs_ is None else S.alias_signature(cs_) for cs_ in w.sets]
+        o["alias"] = [None if g is None else (S.digest(g) if g else "") for g in sigs]
         changed = [k for k in range(len(before)) if before[k] != after[k]]
         o["changed"] = changed
         if full and changed:
@@ -378,6 +385,11 @@ def do_edit(cs, e):
             n.content = e[4]
         else:
             n.layout_info = make_layout("align")
+    elif k == "node_dict":
+        # in-place edit of a STYLE node's content dict: node.content[key] = value (no-op on other nodes)
+        n = cap.nodes[e[3] % len(cap.nodes)]
+        if isinstance(n.content, dict):
+            n.content[e[4]] = e[5]
     elif k == "del_cap":
         del caps[e[2] % len(caps)]
     else:
@@ -412,7 +424,8 @@ def pristine_read(r):
     rdr = READERS[r["fmt"]](**r.get("ropts", {}))
     res, exc = guarded(lambda: rdr.read(r["doc"], **r.get("opts", {})))
     if exc is not None:
-        return {"err": err_code(exc), "exc": repr(exc)[:200]}
+        return {"err": err_code(exc), "exc": repr(exc)[:200],
+                "exc_class": "%s.%s" % (type(exc).__module__, type(exc).__qualname__)}
     t = S.tree(res)
     return {"err": None, "tree": t, "digest": S.digest(t)}
 
